@@ -7,10 +7,16 @@ on, over the full domain of its symbolic inputs: a proof for that domain, not a 
 
 OBL = []
 
+# obligations generated for both build configurations (C20); kept small so that the quick check of
+# C20 stays within minutes - the thorough tier adds every obligation listed with two feature sets
+C20_QUICK_DUAL = {"leaf_decode_id13", "leaf_mode_a_to_mode_c", "leaf_ac13_read", "leaf_ac12_read", "leaf_identity_read",
+                  "me_tc00", "bds_v10", "df00_b0_02", "df11_b0_5d", "df24_b0_c5", "df23_rej_b8", "df17_ca5_me58",
+                  "fc_df11_07", "fc_df17_14", "vel_calc_st1", "cpr_nl"}
+
 
 def add(name, crate, fn, args="", props=(), unwind=None, tier="quick", stubs=("fmt",),
         bounded=None, domain="", features=("std",), timeout=900, functions=(), kani_flags=()):
-    OBL.append(dict(name=name, crate=crate, fn=fn, args=args, props=list(props), unwind=unwind,
+    OBL.append(dict(name=name, crate=crate, fn=fn, args=args, props=list(props), unwind=unwind, dual_quick=(name in C20_QUICK_DUAL),
                     tier=tier, stubs=list(stubs), bounded=bounded, domain=domain,
                     features=list(features), timeout=timeout, functions=list(functions),
                     kani_flags=list(kani_flags)))
